@@ -182,7 +182,7 @@ func c12Run(co *caseOut, kind, tag string, in c12Input) {
 			return
 		}
 	}
-	if len(obs.Res.Stack) > 150000 {
+	if len(obs.Res.Stack) > 30000 {
 		return
 	}
 	refs := make([]string, len(obs.Refs))
